@@ -76,6 +76,7 @@ def sinks (job : String) (n : Int) : Option (List (List (List Int))) :=
     let step := fun (st : Int) => (st + sumI (es.map fun e => (e + st) % M)) % M
     some [[[iterN 3 step 0]]]
   | "limited_forward" => some [xs.map fun x => [x + 1]]
+  | "limited_forward3" => some [xs.map fun x => [x * 2 + 1]]
   | "side_zip_right" | "side_zip_left" =>
     -- equal lengths: every element of both sides is in exactly one pair, so the sum does not depend on the pairing
     let ys := rangeI (minI n 200)
